@@ -704,4 +704,31 @@ theorem rowUpdOk_complete (db : Db) (now : Time) (db' : Db) (hm : db'.msgs = db.
     Option.isSome_some, Bool.or_true, Bool.and_true, hatt]
   simp
 
+theorem rowUpdOk_refl' (db : Db) (now : Time) (db' : Db) (d : Delivery) (hk : keyOf db' d = keyOf db d) :
+    rowUpdOk db now db' d d = true := by
+  unfold rowUpdOk
+  simp only [beq_self_eq_true, Bool.true_and, Nat.le_refl, decide_true, hk, Nat.lt_irrefl, decide_false, Bool.false_or]
+  cases hc : d.completedAt <;> simp
+
+theorem rowsUpdOk_refl' (db : Db) (now : Time) (db' : Db) :
+    ∀ l : List Delivery, (∀ d ∈ l, keyOf db' d = keyOf db d) → rowsUpdOk db now db' l l = true
+  | [], _ => rfl
+  | d :: r, h => by
+    simp only [rowsUpdOk, Bool.and_eq_true]
+    exact ⟨rowUpdOk_refl' db now db' d (h d (List.mem_cons_self ..)),
+      rowsUpdOk_refl' db now db' r (fun x hx => h x (List.mem_cons_of_mem _ hx))⟩
+
+/-- a step that only appends rows (and may add messages without changing the key of an existing row) -/
+theorem stepOk_of_append (stamps : Bool) (db : Db) (now : Time) (db' : Db) (now' : Time) (rows : List Delivery)
+    (hnow : now ≤ now') (hd : db'.dels = db.dels ++ rows) (hs : db'.subs = db.subs)
+    (hk : ∀ d ∈ db.dels, keyOf db' d = keyOf db d)
+    (happ : appendOk stamps now db' now' db.dels rows = true) :
+    stepOk stamps db now db' now' = true := by
+  unfold stepOk
+  simp only [Bool.and_eq_true, decide_eq_true_eq, Bool.or_eq_true]
+  refine ⟨⟨hnow, subsOk_same db db' hs⟩, Or.inl ?_⟩
+  unfold growOk
+  simp only [hd, List.take_left', List.drop_left', Bool.and_eq_true]
+  exact ⟨rowsUpdOk_refl' db now db' db.dels hk, happ⟩
+
 end Mmmbbb.Ord
